@@ -280,7 +280,8 @@ class World:
               'tombstones_processed', 'monitor_moved_link',
               'sync_with_cleanup_and_running', 'settled_checks',
               'events_ignored_inactive', 'containers_started',
-              'reconfigured_existing_dir', 'sync_made_cleanup_link')
+              'reconfigured_existing_dir', 'sync_made_cleanup_link',
+              'preempted_delete')
     FAULTS = ('configure_setup_error', 'configure_generic_error',
               'configure_late_error', 'bad_manifest', 'inode_reuse',
               'manager_killed', 'node_restarted', 'cleanup_restarted')
@@ -322,6 +323,7 @@ class World:
         self.mgr_died = 0
         self.by_real_inode = {}    # (st_dev, st_ino) of a cache file -> inst
         self.cache_inode_changes = 0
+        self.preempted_replace = 0
 
         # provenance: which real function performed which link operation
         self.hist = {}             # cname -> [dict(ev, where, by)]
@@ -345,6 +347,9 @@ class World:
         self.mgr_ready_evt = False
         self.sync_unchanged = None
         self.cur_fail = None
+        self.cur_preempt = None
+        self.raced = {}            # inst -> 'deleted'|'replaced' inside the
+        #                            current / last synchronisation
         self.cfg_calls = 0
         self.mon = monitor.Monitor(env, None)
         self.mon._tombstones = collections.deque()   # as Monitor._configure
@@ -458,6 +463,12 @@ class World:
     def configure(self, tm_env, event_file, runtime, runtime_param):
         inst = os.path.basename(event_file)
         self.cfg_calls += 1
+        # pre-emption point: the event manager is another process; between
+        # the manager's listing of cache/ (or the event it is handling) and
+        # this configure() it may delete or replace cache entries
+        for pre in self.cur_preempt or ():
+            if pre.get('k') == self.cfg_calls:
+                self._preempt(pre, inst)
         ent = self.cache.get(inst)
         fault = None
         if self.cur_fail and self.cur_fail.get('k') == self.cfg_calls:
@@ -526,6 +537,26 @@ class World:
                 self.failed.add((inst, ent['gen']))
             raise RuntimeError('injected failure after configure')
         return cdir
+
+    def _preempt(self, pre, this_inst):
+        """Nested world ops of the cache writer (recorded inside the op)."""
+        what = pre.get('do')
+        inst = this_inst if what.endswith('-this') else pre.get('inst')
+        if inst not in self.cache:
+            return
+        self.log.ev('preempt', what, inst)
+        if what in ('del', 'del-this'):
+            self.op_del({'inst': inst})
+            self.raced[inst] = 'deleted'
+            self.probes['preempted_delete'] += 1
+        elif what in ('replace', 'replace-this'):
+            self.op_del({'inst': inst})
+            nested = {'inst': inst, 'bad': False}
+            if pre.get('ino') is not None:
+                nested['ino'] = pre['ino']
+            self.op_put(nested)
+            self.raced[inst] = 'replaced'
+            self.preempted_replace += 1
 
     # -- the supervision model (s6) --------------------------------------------
     def control_svscan(self, scan_dir, actions):
@@ -787,6 +818,7 @@ class World:
             self.probes['sync_with_cleanup_and_running'] += 1
             self.nontrivial += 1
         self.log.ev('sync-begin')
+        self.raced = {}
         return nodecheck.unchanged_set(self.links, self.cache,
                                        self.containers, env.apps_dir)
 
@@ -807,11 +839,21 @@ class World:
                                       'at-sync', hist)
         if bad is None:
             bad = nodecheck.two_links(links, env.apps_dir, hist)
+        # an instance whose cache entry the event manager changed while this
+        # synchronisation was running is judged once its events are
+        # processed ('settled'), not against a listing the sync could not see
+        raced = self.raced
+        conts = {c: r for c, r in self.containers.items()
+                 if r['inst'] not in raced}
+        f_links = {k: t for k, t in links.items()
+                   if k[1] not in raced and
+                   (t not in self.containers or t in conts)}
+        f_cache = {i: e for i, e in self.cache.items() if i not in raced}
         if bad is None:
-            bad = nodecheck.follow(links, self.cache, self.containers,
+            bad = nodecheck.follow(f_links, f_cache, conts,
                                    self.failed, 'at-sync', hist)
         if bad is None:
-            bad = nodecheck.uncleaned(links, self.cache, self.containers,
+            bad = nodecheck.uncleaned(f_links, f_cache, conts,
                                       env.apps_dir, False, 'at-sync', hist)
         self.check(bad)
         self.sync_unchanged = nodecheck.unchanged_set(
@@ -827,7 +869,8 @@ class World:
                                self.failed, 'settled', hist)
         if bad is None:
             bad = nodecheck.uncleaned(links, self.cache, self.containers,
-                                      env.apps_dir, True, 'settled', hist)
+                                      env.apps_dir, True, 'settled', hist,
+                                      self.raced)
         if bad is None and self.sync_unchanged is not None:
             bad = nodecheck.disturbed(self.sync_unchanged, links, self.cache,
                                       self.containers, env.apps_dir,
@@ -921,12 +964,14 @@ class World:
     def apply(self, op):
         self.seam.begin(order=op.get('order', 0))
         self.cur_fail = op.get('fail')
+        self.cur_preempt = op.get('preempt')
         self.cfg_calls = 0
         try:
             getattr(self, 'op_' + op['op'])(op)
         finally:
             self.seam.end()
             self.cur_fail = None
+            self.cur_preempt = None
         self.clock.advance(0.001)
 
     def op_advance(self, op):
@@ -1209,7 +1254,7 @@ OP_WEIGHTS = [
 
 SCENARIOS = ('regen_restart', 'batch', 'rewrite', 'finish_restart', 'stale',
              'between', 'regen_node_restart', 'double_terminate',
-             'finish_before_stale_created')
+             'finish_before_stale_created', 'reboot_race')
 
 
 class Generator:
@@ -1237,7 +1282,23 @@ class Generator:
             op['fail'] = {'k': self.fault.randint(1, 3),
                           'kind': self.fault.choice(
                               ['setup', 'generic', 'late'])}
+        if self.sched.random() < self.config.get('p_preempt', 0.0):
+            op['preempt'] = [self._preempt()]
         return op
+
+    def _preempt(self, k=None, do=None):
+        """The cache writer acts between the manager's listing / event and
+        the k-th configure() of the op."""
+        if do is None:
+            kinds = ['del-this', 'del-this', 'del']
+            if self.config.get('preempt_replace'):
+                kinds += ['replace-this', 'replace']
+            do = self.sched.choice(kinds)
+        pre = {'k': k if k is not None else self.sched.randint(1, 3),
+               'do': do}
+        if not do.endswith('-this'):
+            pre['inst'] = self.sched.choice(self.insts)
+        return pre
 
     def _step(self, n=None):
         if n is None:
@@ -1468,6 +1529,20 @@ class Generator:
         ops.append(self._mgr('settle'))
         return ops
 
+    def s_reboot_race(self, world):
+        # reboot (run.sh clears running/ and cleanup/, apps/ stays), then the
+        # event manager deletes (or replaces) a cache entry while the
+        # synchronisation that re-configures its container is running
+        _inst, ops = self._running_first(world)
+        ops.append({'op': 'node_restart'})
+        ops.append({'op': 'ready'})
+        settle = {'op': 'settle', 'order': self._order(),
+                  'preempt': [self._preempt(
+                      k=self.sched.randint(1, max(1, len(world.cache))),
+                      do=None if self.rng.random() < 0.3 else 'del-this')]}
+        ops.append(settle)
+        return ops
+
     def s_between(self, world):
         # an event for X between the delete and the create of Y
         inst, ops = self._running_first(world)
@@ -1524,6 +1599,10 @@ def make_config(prop, tier, rng):
         'p_bad': rng.choice([0.0, 0.05, 0.15]),
         'p_ino_reuse': rng.choice([0.0, 0.3, 0.8]),
         'nuke_tombstones': rng.random() < 0.6,
+        'p_preempt': rng.choice([0.0, 0.05, 0.15]),
+        # replacement (delete + create of the same instance) inside one
+        # synchronisation: thorough tier only, see assumptions
+        'preempt_replace': bool(big and rng.random() < 0.5),
     }
 
 
@@ -1627,6 +1706,13 @@ class NodeSim(enginemod.Engine):
             '(exitinfo/aborted/oom) may or may not be linked in running/; '
             'only the creation of a running link onto a container holding '
             'such a file is forbidden',
+            'the event manager acts inside a manager handler only at the '
+            'entry of configure() (delete of any entry in every tier; delete + '
+            're-create of an entry in the thorough tier only: the unchanged '
+            'tree loses the old container there, see tools/c13-candidate-fixes/'
+            'fix-5); an instance whose entry changed inside a synchronisation '
+            'is judged when its events are processed, not at the end of that '
+            'synchronisation',
             'unique-id collisions caused by the 77-bit truncation of '
             '(ctime, inode) are not searched for adversarially (ctime comes '
             'from the virtual clock, >= 1 ms per op)',
@@ -1732,7 +1818,8 @@ class NodeSim(enginemod.Engine):
             res.extra = {
                 'unique_name_collisions': world.unique_name_collisions,
                 'manager_died_in_handler': world.mgr_died,
-                'cache_inode_changes': world.cache_inode_changes}
+                'cache_inode_changes': world.cache_inode_changes,
+                'preempted_replace': world.preempted_replace}
             res.fps = world.fps
             res.nontrivial = world.nontrivial
             res.trace_fp = logmod.fingerprint(executed)
